@@ -1,5 +1,6 @@
 import GnoVerif.Proofs.C33
 import GnoVerif.Proofs.C33Witness
+import GnoVerif.Proofs.C33Live
 /-!
 # C33 — a node recovers from a crash at any point of block processing
 
@@ -18,13 +19,17 @@ every history: any number of processes, each killed after ANY prefix of its dura
 inside the handshake's own replay too — at any height, in any round, with any block contents.
 
 Theorems for every reachable world (no bound):
-* `reachable_triple_is_handled`, `restart_never_fails`  — the handshake's table covers it;
+* `reachable_triple_is_handled`, `restart_never_fails`  — the handshake's table covers it
+  (`case_table_is_exhaustive`: for arbitrary databases its final "uncovered case" panic is dead);
 * `handshake_converges` — store = state = application at the block store's height, with the
   application hash of an uncrashed execution of the stored blocks;
 * `kill_during_recovery_converges` — the same when the recovery itself is killed anywhere;
 * `stored_chain_is_hash_chained`, `committed_blocks_never_lost`, `uncrashed_run_stays_synced`;
 * `sign_state_never_regresses` — the privval's last signed H/R/S only rises (that it refuses
   conflicting messages at and below it is C34, not re-proved here).
+
+* `first_kill_live_iff` — for the first kill of a chain, at ANY point of ANY height: the validator
+  goes on committing iff the kill is outside the one window of the first height.
 
 NOT a theorem, because the unchanged code violates it: "it continues committing".
 `recovers_statement` is the full statement; `first_height_counterexample` and
@@ -47,6 +52,11 @@ theorem reachable_triple_is_handled {d : Disk} (h : Reach d) :
   · exact Or.inr (Or.inr ⟨a, b, e⟩)
 
 example : ∃ d, Reach d ∧ d.store = 2 ∧ d.st = 1 ∧ d.app = 1 := ⟨world1, reach_world1, rfl, rfl, rfl⟩
+
+/-- For EVERY content of the three databases — reachable or not — the handshake's case analysis
+is exhaustive: the `panic("uncovered case!")` that ends `ReplayBlocks` is dead code. -/
+theorem case_table_is_exhaustive (c : Core) : newNode c ≠ .error .uncovered :=
+  newNode_not_uncovered c
 
 /-- `node.NewNode` (genesis handling, ABCI handshake with block replay, reconstruction of the
 last commit) returns without error or panic on every world a history of kills can leave. -/
@@ -153,6 +163,58 @@ theorem recovers_partial {d : Disk} (h : Reach d) :
   intro hg
   simp only [live, replays, hw, hp, hst, Bool.or_eq_true, Bool.and_eq_true, Bool.not_eq_true']
   exact hg
+
+/-- The FIRST kill of a chain, exactly.  Whatever the uncrashed node was doing (any heights, any
+transactions, any rounds) and wherever it is killed, the restart converges, and the validator
+goes on committing IF AND ONLY IF the kill did not fall into the one window of the first height:
+height ≥ 2 (or the block of height 1 already stored) is always survived; in height 1 only up to
+the round-0 proposal.  So the first-height defect is the only way a single kill stops a chain. -/
+theorem first_kill_live_iff {run p : List Ev} (hrun : Heights w1 run)
+    (hp : p <+: genesisHs ++ walOpenEvs w0 ++ run) :
+    ∃ evs c', newNode (applyAll Disk.empty p).toCore = .ok (evs, c') ∧ c'.synced ∧
+      (live (applyAll (applyAll Disk.empty p) evs) = true ↔
+        (1 ≤ c'.st ∨ (applyAll Disk.empty p).pv.le ⟨1, 0, 1⟩ = true)) := by
+  have hreach : Reach (applyAll Disk.empty p) :=
+    Reach.kill _ _ Reach.genesis (Proc.running genesisHs _ run p genesis_newNode rfl hrun hp)
+  have hlog := first_process_log hrun hp
+  generalize applyAll Disk.empty p = d at hreach hlog
+  obtain ⟨evs, c', hn⟩ := restart_never_fails hreach
+  obtain ⟨a, b, _, _, _⟩ := handshake_converges hreach hn
+  refine ⟨evs, c', hn, a, ?_⟩
+  obtain ⟨hw, hpv⟩ := applyAll_db_log (d := d) (newNode_db (reach_inv hreach) hn)
+  have hst : (applyAll d evs).st = d.blocks.length := by
+    obtain ⟨evs0, hn0, g⟩ := newNode_of_inv (reach_inv hreach)
+    rw [hn0] at hn; cases hn
+    show (applyAll d _).toCore.st = _; rw [applyAll_toCore]; exact g.st
+  have hb : c'.st = d.blocks.length := b
+  have hlive : live (applyAll d evs) =
+      ((hasMark d.wal (d.blocks.length + 1) && !hasMark d.wal (d.blocks.length + 2)) ||
+        d.pv.le ⟨d.blocks.length + 1, 0, 1⟩) := by
+    simp only [live, replays, hw, hpv, hst]
+  have hno2 : hasMark d.wal (d.blocks.length + 2) = false := by
+    cases h : hasMark d.wal (d.blocks.length + 2) with
+    | false => rfl
+    | true => have := (hlog.m1 _ ((hasMark_iff _ _).mp h)).2; omega
+  rw [hlive, hno2, hb]
+  rcases reachable_triple_is_handled hreach with ⟨s1, _, _⟩ | ⟨s1, _, _⟩ | ⟨s1, _, _⟩
+  · -- store = state: the height in progress was not stored yet
+    have s1' : d.blocks.length = d.st := s1
+    by_cases h0 : d.blocks.length = 0
+    · have hno1 : hasMark d.wal (d.blocks.length + 1) = false := by
+        cases h : hasMark d.wal (d.blocks.length + 1) with
+        | false => rfl
+        | true => have := (hlog.m1 _ ((hasMark_iff _ _).mp h)).1; omega
+      rw [hno1, h0]; simp
+    · have h1 : hasMark d.wal (d.blocks.length + 1) = true :=
+        (hasMark_iff _ _).mpr (hlog.m2 _ (by omega) (by omega))
+      rw [h1]; simp; omega
+  all_goals
+    have s1' : d.blocks.length = d.st + 1 := s1
+    have hp1 : d.pv.le ⟨d.blocks.length + 1, 0, 1⟩ = true := by
+      have := hlog.pv
+      simp only [HRS.le, Bool.or_eq_true, decide_eq_true_eq]
+      left; omega
+    rw [hp1]; simp; omega
 
 /-- FINDING (first height): killed in height 1 after the prevote was signed and before the block
 reached the store, the validator never commits again: the marker `1` is never in the WAL (it
